@@ -45,6 +45,38 @@ def run(rep):
     rep.run(use_filter)
     rep.run(compiled_predicates)
     rep.run(quick_pre_filter)
+    rep.run(unified_entry)
+
+
+# ------------------------------------------------------------------ O7.1 (unified boolean entry point)
+def unified_entry(rep):
+    """SubgraphMatch.is_subgraph forwards its question to subgraph_isomorphism: (pattern, host) reach (child, parent) and every option it
+    forwards reaches the like-named parameter - in particular the containment mode."""
+    fi = rep.f(SM, "SubgraphMatch.is_subgraph")
+    callee = rep.f(SM, "SubgraphMatch.subgraph_isomorphism")
+    calls = [c for c in walk_local(fi.node) if isinstance(c, ast.Call) and call_name(c) == "subgraph_isomorphism"]
+    rep.need("R2", len(calls), 1, "is_subgraph -> subgraph_isomorphism")
+    cparams = [p_ for p_ in callee.params if p_ not in ("self", "cls")]
+    for c in calls:
+        if any(isinstance(a, ast.Starred) for a in c.args) or any(k.arg is None for k in c.keywords):
+            rep.ob("O7.1", "R2", fi, None, c, "the forwarding call is not a plain call (star arguments)", node=c)
+            continue
+        bound = {cparams[i]: a for i, a in enumerate(c.args) if i < len(cparams)}
+        bound.update({k.arg: k.value for k in c.keywords})
+        first_two = [norm(bound.get(p_)) if bound.get(p_) is not None else None for p_ in cparams[:2]]
+        rep.ob("O7.1", "R2", fi, first_two == fi.params[:2], c, f"(pattern, host) are asked as ({cparams[0]}, {cparams[1]})", {"bound": first_two}, node=c)
+        for p_ in fi.params[2:]:
+            if p_ not in cparams:
+                continue
+            got = bound.get(p_)
+            others = [q for q, v in bound.items() if q != p_ and isinstance(v, ast.Name) and v.id == p_]
+            ok = (isinstance(got, ast.Name) and got.id == p_) and not others
+            if got is None and not others:
+                ok = False if p_ == "check_type" else None   # an option that is simply not forwarded: only the containment mode is part of the property
+                if ok is None:
+                    continue
+            rep.ob("O7.1", "R2", fi, ok, c, f"option `{p_}` reaches the parameter `{p_}` of subgraph_isomorphism" +
+                   (f" (it is bound to `{others[0]}`)" if others else ""), node=c)
 
 
 # ------------------------------------------------------------------ O7.1
@@ -276,6 +308,28 @@ def wl_cache(rep):
     gets = [c for c in walk_local(wl.node, into_nested=True) if isinstance(c, ast.Call) and call_name(c) == "get"]
     ok = bool(gets) and all(isinstance(c.args[0], ast.Name) for c in gets)
     rep.ob("O7.2", "R1", wl, ok, gets[0] if gets else "get", "the histogram depends on the graph and the attribute tuple only")
+    # ... and on the raw values: the node matcher compares attribute values with ==, so two equal values must give equal colours. A text
+    # rendering (str / repr / format / f-string) separates 0 from 0.0 and 1 from True; any other wrapper is not understood.
+    pmw = parent_map(wl.node)
+    for c in gets:
+        par = pmw.get(c)
+        wrapped = None
+        while par is not None and not isinstance(par, ast.stmt):
+            if isinstance(par, ast.Call) and c is not par.func and call_name(par) not in ("tuple", "sorted", "Counter", "frozenset", "list"):
+                wrapped = par
+                break
+            if isinstance(par, (ast.JoinedStr, ast.FormattedValue)) or (isinstance(par, ast.BinOp) and isinstance(par.op, ast.Mod)):
+                wrapped = par
+                break
+            par = pmw.get(par)
+        if wrapped is None:
+            okw = True
+        elif isinstance(wrapped, (ast.JoinedStr, ast.FormattedValue, ast.BinOp)) or call_name(wrapped) in ("str", "repr", "format", "ascii"):
+            okw = False
+        else:
+            okw = None
+        rep.ob("O7.3", "FILTER", wl, okw, wrapped if wrapped is not None else c,
+               "colours are built from the raw attribute values (values the matcher compares equal get equal colours; a text rendering separates 0 / 0.0 / False)", node=c)
 
 
 # ------------------------------------------------------------------ O7.3
